@@ -265,6 +265,8 @@ func c42(r *core.Run) {
 	}
 	r.Floor("R6.traversal", 2)
 	// shared ERR rule restricted to this codec: a failure of an inner encode/decode step must not be dropped
+	c42PanicKinds(r)
+	c42TypeKeys(r)
 	errDiscipline(r, "R8.errdrop", "encoding/ccf functions", func(fn *ssa.Function) bool { return fn.Pkg != nil && fn.Pkg.Pkg.Path() == mod+"/encoding/ccf" }, 100)
 }
 
